@@ -39,6 +39,7 @@ def plan(tier, seed):
             jobs.append({"func": "rs_handshake", "fw": fw, "name": "rs-hs/%s/%d" % (fw, sh), "args": {"shard": sh, "nshards": nsh, "stride": 2 if q else 1, "offset": seed % 2 if q else 0}})
         jobs.append({"func": "coalesced", "fw": fw, "name": "coalesced/%s" % fw, "args": {"full": not q, "offset": seed}})
         jobs.append({"func": "ws_subprotocols", "fw": fw, "name": "ws-sub/%s" % fw, "args": {"stride": 2 if q else 1, "offset": seed % 2 if q else 0}})
+        jobs.append({"func": "ws_subprotocols", "fw": fw, "name": "ws-sub-batched/%s" % fw, "args": {"stride": 2 if q else 1, "offset": seed % 2 if q else 0, "names": BATCHED_MIX}})
         for sh in range(2 if q else 6):
             jobs.append({"func": "traffic", "fw": fw, "name": "traffic/%s/%d" % (fw, sh), "args": {"seed": seed * 1000 + i * 100 + sh, "n": 300 if q else 2000}})
             jobs.append({"func": "corruption", "fw": fw, "name": "corrupt/%s/%d" % (fw, sh), "args": {"seed": seed * 1000 + i * 100 + 50 + sh, "n": 500 if q else 3000}})
@@ -90,7 +91,7 @@ def _mods():
 
 def ser_objs(names):
     from harness.wamptx import serializer_obj
-    return [serializer_obj(n) for n in names]
+    return [serializer_obj(n[:-len(".batched")], batched=True) if n.endswith(".batched") else serializer_obj(n) for n in names]
 
 
 def feed_split(ep, data, split):
@@ -290,10 +291,15 @@ def ordered_subsets(items):
     return out
 
 
-def ws_subprotocols(col, stride, offset, only=None):
+BATCHED_MIX = ["json", "json.batched", "msgpack", "msgpack.batched"]      # a serializer and its batched variant are different subprotocols (wamp.2.json vs wamp.2.json.batched)
+
+
+def ws_subprotocols(col, stride, offset, only=None, names=None):
     from harness import drv, wsutil
     _, ws = _mods()
-    subsets = ordered_subsets(SERS)
+    if only is not None and any(".batched" in x for x in list(only[0]) + list(only[1])):
+        names = BATCHED_MIX
+    subsets = ordered_subsets(names or SERS)
     pairs = [(c, s) for c in subsets for s in subsets if c and s]
     d = drv.get_driver()
     from harness.core import guarded_blocks
@@ -341,7 +347,7 @@ def ws_subprotocols(col, stride, offset, only=None):
                 raise Violation("C13|ws-sub|message-not-delivered-after-negotiation", "serializer %s" % want, case)
         col.case(True, enum=True, cls="ws-sub/" + ("common:" + want if want else "none"), sample=case)
     d.close()
-    col.exhaustive.append("WebSocket subprotocol negotiation: %s of the 64x64 non-empty ordered serializer subsets (client x server)" % ("all" if stride == 1 else "1/%d" % stride))
+    col.exhaustive.append("WebSocket subprotocol negotiation over %r: %s of the 64x64 non-empty ordered serializer subsets (client x server)" % (names or SERS, "all" if stride == 1 else "1/%d" % stride))
 
 
 # ---------------------------------------------------------------- (c) traffic around the limits
